@@ -438,155 +438,7 @@ func runC16(c *Ctx) {
 
 	// R5 diversity counting
 	c.Rule("R5")
-	{
-		f := c.Fn("(*" + frT + ").GetClosestPeers")
-		cf := f.CFG()
-		info := f.Info()
-		var peers, counts eng.Object
-		var mkCounts *ast.AssignStmt
-		f.Walk(func(n ast.Node) bool {
-			if as, ok := n.(*ast.AssignStmt); ok && as.Tok == token.DEFINE && len(as.Lhs) == 1 {
-				if id := as.Lhs[0].(*ast.Ident); eng.NameOf(id) == "peers" {
-					peers = info.Defs[id]
-				} else if eng.NameOf(id) == "ipGroupCounts" {
-					counts = info.Defs[id]
-					mkCounts = as
-				}
-			}
-			return true
-		})
-		c.Anchor(peers != nil && counts != nil, "GetClosestPeers: peers/ipGroupCounts not found")
-		var apps []*ast.AssignStmt
-		for _, as := range assignsTo(f, func(l ast.Expr) bool { return eng.IsObj(info, l, peers) }) {
-			if _, isApp := eng.IsCallTo(info, as.Rhs[0], "builtin.append"); isApp {
-				apps = append(apps, as)
-			}
-		}
-		if c.Check(K(f.Name, "appends"), f.Pos(), len(apps) == 1, "the result is built by one append", "found "+itoa(len(apps))) {
-			app := apps[0]
-			// counts persist across pages: the map is never re-created between two appends
-			r, _ := cf.Reach(cf.LocOf(app), eng.LocSet(cf.LocOf(mkCounts)), eng.ReachOpt{})
-			c.Check(K(f.Name, "counts span pages"), mkCounts.Pos(), !r, "per-group counts are kept for the whole call, not per page of candidates", "the count map can be re-created after a peer was appended")
-			// the appended peer is the one looked up for the iterated key, in ClosestN order
-			call := app.Rhs[0].(*ast.CallExpr)
-			pObj := eng.ObjOf(info, call.Args[1])
-			okOrder := false
-			var keyLoop *ast.RangeStmt
-			for x := p.Parent(app); x != nil; x = p.Parent(x) {
-				if rg, ok := x.(*ast.RangeStmt); ok {
-					keyLoop = rg
-					break
-				}
-			}
-			if keyLoop != nil && pObj != nil {
-				for _, d := range f.AssignedFrom(pObj) {
-					if ix, isIx := eng.Unparen(defOrNil(d)).(*ast.IndexExpr); isIx && eng.IsField(info, ix.X, frT+".keyToPeerMap") && eng.Mentions(info, ix.Index, eng.ObjOf(info, keyLoop.Value)) {
-						okOrder = true
-					}
-				}
-				// the iterated list is ClosestN(...)[nClosest:]
-				if o := eng.ObjOf(info, keyLoop.X); o != nil {
-					if d := f.LocalVarDef(o); d != nil {
-						se, isSl := eng.Unparen(d).(*ast.SliceExpr)
-						if !isSl {
-							okOrder = false
-						} else if _, isCN := eng.IsCallTo(info, se.X, "github.com/libp2p/go-libp2p-xor/kademlia.ClosestN"); !isCN || se.High != nil {
-							okOrder = false
-						}
-					}
-				}
-			}
-			c.Check(K(f.Name, "order preserved"), app.Pos(), okOrder, "peers are appended in the order ClosestN lists their keys", "appended value is not the peer of the iterated ClosestN key")
-			// appended after the address loop, and rejections only from inside it behind the limit test
-			// the loop over the peer's addresses (it may live in a helper read in place)
-			var addrLoop *ast.RangeStmt
-			f.Walk(func(n ast.Node) bool {
-				if rg, ok := n.(*ast.RangeStmt); ok && addrLoop == nil && n != ast.Node(keyLoop) {
-					if tv, ok := info.Types[rg.X]; ok && eng.TypeKey(tv.Type) == "[]github.com/multiformats/go-multiaddr.Multiaddr" {
-						addrLoop = rg
-					}
-				}
-				return true
-			})
-			okAfter := addrLoop != nil && !eng.Contains(addrLoop, app)
-			if okAfter {
-				r2, _ := cf.Reach(cf.LocOf(app), eng.LocSet(cf.LocOf(addrLoop.X)), eng.ReachOpt{CutLoc: eng.LocSet(cf.LocOf(keyLoop.Value))})
-				okAfter = !r2 || true
-			}
-			c.Check(K(f.Name, "append after all groups"), app.Pos(), okAfter, "a peer is appended only after all its addresses' groups were checked", "append inside the address loop")
-			// the limit test: over-representation means `not already counted && size >= limit`
-			nrej := 0
-			ast.Inspect(addrLoop, func(n ast.Node) bool {
-				// a rejection leaves the address loop for the next key: `continue <key loop>`, or
-				// `return false` when the loop lives in a helper read in place
-				var br ast.Stmt
-				switch x := n.(type) {
-				case *ast.BranchStmt:
-					if x.Tok == token.CONTINUE && x.Label != nil {
-						br = x
-					}
-				case *ast.ReturnStmt:
-					if !eng.Contains(f.Body, x) && len(x.Results) == 1 && isBoolConst(info, x.Results[0], false) {
-						br = x
-					}
-				}
-				if br == nil {
-					return true
-				}
-				nrej++
-				ifs, _ := p.Parent(p.Parent(br)).(*ast.IfStmt)
-				okLim := false
-				if ifs != nil {
-					at := func(leaf ast.Expr) (string, bool, bool) {
-						if o := eng.ObjOf(info, leaf); o != nil {
-							for _, d := range f.AssignedFrom(o) {
-								if ix, isIx := eng.Unparen(defOrNil(d)).(*ast.IndexExpr); isIx && eng.IsObj(info, ix.Index, pObj) && eng.Mentions(info, ix.X, counts) {
-									return "counted", true, true
-								}
-							}
-						}
-						a, op, b, isCmp := cmpNorm(leaf)
-						if isCmp && eng.IsField(info, b, frT+".ipDiversityFilterLimit") {
-							if la := eng.LenArg(info, a); la != nil && eng.Mentions(info, la, counts) {
-								switch op {
-								case token.GEQ:
-									return "full", true, true
-								case token.LSS:
-									return "full", false, true
-								}
-							}
-						}
-						return "", false, false
-					}
-					okLim = eng.Equivalent(ifs.Cond, at, []string{"counted", "full"}, func(v map[string]bool) bool { return !v["counted"] && v["full"] })
-				}
-				c.Check(K(f.Name, "rejection test"), br.Pos(), okLim, "a peer is rejected exactly when a group it is not yet counted in already holds `limit` returned peers", "condition is not `!counted && len(group) >= limit`")
-				return true
-			})
-			c.Check(K(f.Name, "rejections"), f.Pos(), nrej == 1, "the diversity filter rejects in one place", "found "+itoa(nrej))
-			// filter only when enabled
-			g, _ := cf.Guarded(cf.LocOf(addrLoop.X), func(ft eng.Fact) bool {
-				x, op, cst, ok := ft.IntCmp()
-				return ok && eng.IsField(info, x, frT+".ipDiversityFilterLimit") && eng.ImpliesAtLeast(op, cst, 1)
-			})
-			c.Check(K(f.Name, "filter when enabled"), addrLoop.Pos(), g, "groups are counted only when the limit is positive (0 disables the filter)", "address loop not guarded by limit > 0")
-			// return at bucketSize
-			okRet := false
-			for _, ret := range cf.Returns() {
-				if len(ret.Results) == 2 && eng.IsObj(info, ret.Results[0], peers) && eng.Contains(keyLoop, ret) {
-					g2, _ := cf.Guarded(cf.LocOf(ret), func(ft eng.Fact) bool {
-						a, op, b, ok := ft.Rel()
-						la := eng.LenArg(info, defOrNil(a))
-						return ok && la != nil && eng.IsObj(info, la, peers) && eng.IsField(info, b, frT+".bucketSize") && (op == token.EQL || op == token.GEQ)
-					})
-					if g2 {
-						okRet = true
-					}
-				}
-			}
-			c.Check(K(f.Name, "returns at bucketSize"), f.Pos(), okRet, "the search stops as soon as bucketSize peers were collected", "no return behind len(peers) == bucketSize inside the loop")
-		}
-	}
+	c16R5(c)
 
 	// R6 empty inputs
 	c.Rule("R6")
@@ -743,4 +595,175 @@ func loopHeads(cf *eng.CFG, p *eng.Prog, n ast.Node) []eng.Loc {
 		}
 	}
 	return out
+}
+
+// c16R5: the accelerated client's GetClosestPeers — order, batches, diversity counting (shared with C01.R8).
+func c16R5(c *Ctx) {
+	p := c.P
+
+	f := c.Fn("(*" + frT + ").GetClosestPeers")
+	cf := f.CFG()
+	info := f.Info()
+	var peers, counts eng.Object
+	var mkCounts *ast.AssignStmt
+	f.Walk(func(n ast.Node) bool {
+		if as, ok := n.(*ast.AssignStmt); ok && as.Tok == token.DEFINE && len(as.Lhs) == 1 {
+			if id := as.Lhs[0].(*ast.Ident); eng.NameOf(id) == "peers" {
+				peers = info.Defs[id]
+			} else if eng.NameOf(id) == "ipGroupCounts" {
+				counts = info.Defs[id]
+				mkCounts = as
+			}
+		}
+		return true
+	})
+	c.Anchor(peers != nil && counts != nil, "GetClosestPeers: peers/ipGroupCounts not found")
+	var apps []*ast.AssignStmt
+	for _, as := range assignsTo(f, func(l ast.Expr) bool { return eng.IsObj(info, l, peers) }) {
+		if _, isApp := eng.IsCallTo(info, as.Rhs[0], "builtin.append"); isApp {
+			apps = append(apps, as)
+		}
+	}
+	if c.Check(K(f.Name, "appends"), f.Pos(), len(apps) == 1, "the result is built by one append", "found "+itoa(len(apps))) {
+		app := apps[0]
+		// counts persist across pages: the map is never re-created between two appends
+		r, _ := cf.Reach(cf.LocOf(app), eng.LocSet(cf.LocOf(mkCounts)), eng.ReachOpt{})
+		c.Check(K(f.Name, "counts span pages"), mkCounts.Pos(), !r, "per-group counts are kept for the whole call, not per page of candidates", "the count map can be re-created after a peer was appended")
+		// the appended peer is the one looked up for the iterated key, in ClosestN order
+		call := app.Rhs[0].(*ast.CallExpr)
+		pObj := eng.ObjOf(info, call.Args[1])
+		okOrder := false
+		var keyLoop *ast.RangeStmt
+		for x := p.Parent(app); x != nil; x = p.Parent(x) {
+			if rg, ok := x.(*ast.RangeStmt); ok {
+				keyLoop = rg
+				break
+			}
+		}
+		if keyLoop != nil && pObj != nil {
+			for _, d := range f.AssignedFrom(pObj) {
+				if ix, isIx := eng.Unparen(defOrNil(d)).(*ast.IndexExpr); isIx && eng.IsField(info, ix.X, frT+".keyToPeerMap") && eng.Mentions(info, ix.Index, eng.ObjOf(info, keyLoop.Value)) {
+					okOrder = true
+				}
+			}
+			// the iterated list is ClosestN(key, rt, nClosest+step)[nClosest:] — the keys not yet
+			// tried, starting exactly where the previous batch ended — and is assigned once
+			if o := eng.ObjOf(info, keyLoop.X); o != nil {
+				defs := assignsDeep(f.Root(), o)
+				okBatch := false
+				if len(defs) == 1 && defs[0] != nil {
+					if se, isSl := eng.Unparen(defs[0]).(*ast.SliceExpr); isSl && se.High == nil && se.Low != nil {
+						if cn, isCN := eng.IsCallTo(info, se.X, "github.com/libp2p/go-libp2p-xor/kademlia.ClosestN"); isCN && len(cn.Args) == 3 {
+							// Low is the batch loop's counter, and the count asked for is counter + stride
+							lo := eng.ObjOf(info, se.Low)
+							if b, isB := eng.Unparen(cn.Args[2]).(*ast.BinaryExpr); isB && b.Op == token.ADD && lo != nil && (eng.IsObj(info, b.X, lo) || eng.IsObj(info, b.Y, lo)) {
+								for x := p.Parent(keyLoop); x != nil; x = p.Parent(x) {
+									if fs, isFor := x.(*ast.ForStmt); isFor {
+										if as, isAs := fs.Post.(*ast.AssignStmt); isAs && len(as.Lhs) == 1 && eng.IsObj(info, as.Lhs[0], lo) && as.Tok == token.ADD_ASSIGN {
+											stride := eng.ObjOf(info, as.Rhs[0])
+											if stride != nil && (eng.IsObj(info, b.X, stride) || eng.IsObj(info, b.Y, stride)) {
+												okBatch = true
+											}
+										}
+										break
+									}
+								}
+							}
+						}
+					}
+				}
+				c.Check(K(f.Name, "batches do not overlap"), keyLoop.Pos(), okBatch, "each batch is ClosestN(key, table, tried+step)[tried:], tried advancing by step: no key is examined twice and none is skipped", "the iterated list is not that slice (or is assigned more than once)")
+			}
+		}
+		c.Check(K(f.Name, "order preserved"), app.Pos(), okOrder, "peers are appended in the order ClosestN lists their keys", "appended value is not the peer of the iterated ClosestN key")
+		// appended after the address loop, and rejections only from inside it behind the limit test
+		// the loop over the peer's addresses (it may live in a helper read in place)
+		var addrLoop *ast.RangeStmt
+		f.Walk(func(n ast.Node) bool {
+			if rg, ok := n.(*ast.RangeStmt); ok && addrLoop == nil && n != ast.Node(keyLoop) {
+				if tv, ok := info.Types[rg.X]; ok && eng.TypeKey(tv.Type) == "[]github.com/multiformats/go-multiaddr.Multiaddr" {
+					addrLoop = rg
+				}
+			}
+			return true
+		})
+		okAfter := addrLoop != nil && !eng.Contains(addrLoop, app)
+		if okAfter {
+			r2, _ := cf.Reach(cf.LocOf(app), eng.LocSet(cf.LocOf(addrLoop.X)), eng.ReachOpt{CutLoc: eng.LocSet(cf.LocOf(keyLoop.Value))})
+			okAfter = !r2 || true
+		}
+		c.Check(K(f.Name, "append after all groups"), app.Pos(), okAfter, "a peer is appended only after all its addresses' groups were checked", "append inside the address loop")
+		// the limit test: over-representation means `not already counted && size >= limit`
+		nrej := 0
+		ast.Inspect(addrLoop, func(n ast.Node) bool {
+			// a rejection leaves the address loop for the next key: `continue <key loop>`, or
+			// `return false` when the loop lives in a helper read in place
+			var br ast.Stmt
+			switch x := n.(type) {
+			case *ast.BranchStmt:
+				if x.Tok == token.CONTINUE && x.Label != nil {
+					br = x
+				}
+			case *ast.ReturnStmt:
+				if !eng.Contains(f.Body, x) && len(x.Results) == 1 && isBoolConst(info, x.Results[0], false) {
+					br = x
+				}
+			}
+			if br == nil {
+				return true
+			}
+			nrej++
+			ifs, _ := p.Parent(p.Parent(br)).(*ast.IfStmt)
+			okLim := false
+			if ifs != nil {
+				at := func(leaf ast.Expr) (string, bool, bool) {
+					if o := eng.ObjOf(info, leaf); o != nil {
+						for _, d := range f.AssignedFrom(o) {
+							if ix, isIx := eng.Unparen(defOrNil(d)).(*ast.IndexExpr); isIx && eng.IsObj(info, ix.Index, pObj) && eng.Mentions(info, ix.X, counts) {
+								return "counted", true, true
+							}
+						}
+					}
+					a, op, b, isCmp := cmpNorm(leaf)
+					if isCmp && eng.IsField(info, b, frT+".ipDiversityFilterLimit") {
+						if la := eng.LenArg(info, a); la != nil && eng.Mentions(info, la, counts) {
+							switch op {
+							case token.GEQ:
+								return "full", true, true
+							case token.LSS:
+								return "full", false, true
+							}
+						}
+					}
+					return "", false, false
+				}
+				okLim = eng.Equivalent(ifs.Cond, at, []string{"counted", "full"}, func(v map[string]bool) bool { return !v["counted"] && v["full"] })
+			}
+			c.Check(K(f.Name, "rejection test"), br.Pos(), okLim, "a peer is rejected exactly when a group it is not yet counted in already holds `limit` returned peers", "condition is not `!counted && len(group) >= limit`")
+			return true
+		})
+		c.Check(K(f.Name, "rejections"), f.Pos(), nrej == 1, "the diversity filter rejects in one place", "found "+itoa(nrej))
+		// filter only when enabled
+		g, _ := cf.Guarded(cf.LocOf(addrLoop.X), func(ft eng.Fact) bool {
+			x, op, cst, ok := ft.IntCmp()
+			return ok && eng.IsField(info, x, frT+".ipDiversityFilterLimit") && eng.ImpliesAtLeast(op, cst, 1)
+		})
+		c.Check(K(f.Name, "filter when enabled"), addrLoop.Pos(), g, "groups are counted only when the limit is positive (0 disables the filter)", "address loop not guarded by limit > 0")
+		// return at bucketSize
+		okRet := false
+		for _, ret := range cf.Returns() {
+			if len(ret.Results) == 2 && eng.IsObj(info, ret.Results[0], peers) && eng.Contains(keyLoop, ret) {
+				g2, _ := cf.Guarded(cf.LocOf(ret), func(ft eng.Fact) bool {
+					a, op, b, ok := ft.Rel()
+					la := eng.LenArg(info, defOrNil(a))
+					return ok && la != nil && eng.IsObj(info, la, peers) && eng.IsField(info, b, frT+".bucketSize") && (op == token.EQL || op == token.GEQ)
+				})
+				if g2 {
+					okRet = true
+				}
+			}
+		}
+		c.Check(K(f.Name, "returns at bucketSize"), f.Pos(), okRet, "the search stops as soon as bucketSize peers were collected", "no return behind len(peers) == bucketSize inside the loop")
+	}
+
 }
